@@ -9,7 +9,7 @@
 From Coq Require Import ZArith List Bool String Lia.
 From Flocq Require Import IEEE754.BinarySingleNaN.
 Require Import MS.Base.GoInt MS.Base.Res MS.Base.FGen MS.Base.F32 MS.Base.F64.
-Require Import MS.Generated.Src_io MS.Generated.Src_sql MS.Model.Sql.
+Require Import MS.Generated.Src_io MS.Generated.Src_sql MS.Model.Sql MS.Proofs.SqlNum_facts.
 Import ListNotations.
 Local Open Scope Z_scope.
 
@@ -18,16 +18,18 @@ Lemma forallb_andb {A} (f g : A -> bool) l :
   forallb (fun x => f x && g x) l = forallb f l && forallb g l.
 Proof. induction l as [|x l IH]; simpl; [reflexivity|]. rewrite IH. destruct (f x), (g x), (forallb f l); reflexivity. Qed.
 
-Lemma forallb_single {A} (f : A -> bool) (eqb : A -> A -> bool) (c : A) l :
-  (forall x y, eqb x y = true <-> x = y) ->
+Lemma forallb_single {A} (f : A -> bool) (c : A) l :
   NoDup l -> In c l -> (forall n, n <> c -> f n = true) -> forallb f l = f c.
 Proof.
-  intros Heq. induction l as [|x l IH]; intros Hnd Hin Hoth; [destruct Hin|].
+  induction l as [|x l IH]; intros Hnd Hin Hoth; [destruct Hin|].
   inversion Hnd as [|? ? Hx Hnd']; subst. simpl. destruct Hin as [->|Hin].
   - replace (forallb f l) with true; [apply andb_true_r|].
     symmetry. apply forallb_forall. intros y Hy. apply Hoth. intros ->. contradiction.
   - rewrite (Hoth x) by (intros ->; contradiction). simpl. apply IH; assumption.
 Qed.
+
+Lemma forallb_ext' {A} (f g : A -> bool) l : (forall x, f x = g x) -> forallb f l = forallb g l.
+Proof. intros H. induction l; simpl; [reflexivity|]. rewrite H, IHl. reflexivity. Qed.
 
 Lemma filter_filter {A} (f g : A -> bool) l : filter f (filter g l) = filter (fun x => g x && f x) l.
 Proof. induction l as [|x l IH]; simpl; [reflexivity|]. destruct (g x); simpl; [destruct (f x)|]; rewrite ?IH; reflexivity. Qed.
@@ -177,4 +179,293 @@ Proof.
     destruct smax as [m|]; destruct smin as [m'|];
       repeat match goal with |- context [generic_cmp ?a ?b ?o] => destruct (generic_cmp a b o) end;
       repeat split; destruct hmin, himin, hmax, himax, heq; reflexivity.
+Qed.
+
+Lemma fold_components c ps s :
+  minp (fold_left (step c) ps s) = fold_left min_step (lows c ps) (minp s)
+  /\ maxp (fold_left (step c) ps s) = fold_left max_step (ups c ps) (maxp s)
+  /\ eqp (fold_left (step c) ps s) = fold_left eq_step (eqs c ps) (eqp s).
+Proof.
+  revert s. induction ps as [|p ps IH]; intros s; [repeat split; reflexivity|].
+  unfold lows, ups, eqs. cbn [fold_left flat_map]. rewrite !fold_left_app.
+  destruct (step_components c s p) as (H1 & H2 & H3). rewrite <- H1, <- H2, <- H3. apply IH.
+Qed.
+
+(** the expected predicate of a column with at most one bound per direction *)
+Definition hd_lit (l : list (lit * bool)) : option lit := match l with [] => None | (x, _) :: _ => Some x end.
+Definition hd_incl (l : list (lit * bool)) : bool := match l with [] => false | (_, i) :: _ => i end.
+Definition nonnil {A} (l : list A) : bool := match l with [] => false | _ => true end.
+Definition exp_sp (lo up : list (lit * bool)) (eq : list lit) : sp :=
+  mksp (hd_lit lo) (hd_lit up) (hd_error eq) (nonnil lo) (hd_incl lo) (nonnil up) (hd_incl up) (nonnil eq).
+
+Definition short {A} (l : list A) : Prop := (List.length l <= 1)%nat.
+
+Lemma gsp_unique c ps :
+  short (lows c ps) -> short (ups c ps) -> short (eqs c ps) ->
+  gsp c (build_group ps) = exp_sp (lows c ps) (ups c ps) (eqs c ps).
+Proof.
+  intros Hl Hu He. rewrite gsp_build.
+  destruct (fold_components c ps sp_empty) as (H1 & H2 & H3).
+  destruct (fold_left (step c) ps sp_empty) as [smin smax seq hmin himin hmax himax heq].
+  unfold minp, maxp, eqp in *. cbn [s_min s_max s_eq h_min h_imin h_max h_imax h_eq sp_empty] in *.
+  unfold exp_sp, short in *.
+  destruct (lows c ps) as [|[l1 i1] [|? ?]]; [| |simpl in Hl; lia];
+  destruct (ups c ps) as [|[l2 i2] [|? ?]]; [| |simpl in Hu; lia | | |simpl in Hu; lia];
+  destruct (eqs c ps) as [|l3 [|? ?]]; try (simpl in He; lia);
+  cbn in H1, H2, H3; inversion H1; inversion H2; inversion H3; subst; reflexivity.
+Qed.
+
+(** ---------- the relational side, per column ---------- *)
+Definition okL (K : lit -> option comparison) (lo : list (lit * bool)) : bool :=
+  forallb (fun lb : lit * bool => sem_op (if snd lb then CGte else CGt) (K (fst lb))) lo.
+Definition okU (K : lit -> option comparison) (up : list (lit * bool)) : bool :=
+  forallb (fun lb : lit * bool => sem_op (if snd lb then CLte else CLt) (K (fst lb))) up.
+Definition okE (K : lit -> option comparison) (eq : list lit) : bool := forallb (fun l => sem_op CEq (K l)) eq.
+Definition okc (K : lit -> option comparison) (c : string) (ps : list pred) : bool :=
+  okL K (lows c ps) && okU K (ups c ps) && okE K (eqs c ps).
+Definition contrib (K : lit -> option comparison) (c : string) (p : pred) : bool :=
+  okL K (lows_of c p) && okU K (ups_of c p) && okE K (eqs_of c p).
+
+Lemma okc_cons K c p ps : okc K c (p :: ps) = contrib K c p && okc K c ps.
+Proof.
+  unfold okc, contrib, okL, okU, okE, lows, ups, eqs. cbn [flat_map]. rewrite !forallb_app.
+  repeat match goal with |- context [forallb ?f ?l] => generalize (forallb f l); intro end.
+  repeat match goal with b : bool |- _ => destruct b end; reflexivity.
+Qed.
+
+Lemma contrib_other K c p : pred_col p <> c -> contrib K c p = true.
+Proof.
+  intros H. assert (E : String.eqb (pred_col p) c = false) by (apply String.eqb_neq; exact H).
+  unfold contrib. destruct p as [k o l|k lo hi]; cbn [pred_col] in E; cbn [lows_of ups_of eqs_of];
+    [destruct o|]; rewrite ?E; reflexivity.
+Qed.
+
+Lemma contrib_same sc r p : pred_is_neq p = false ->
+  contrib (cmp_col sc r (pred_col p)) (pred_col p) p = sem_pred sc r p.
+Proof.
+  intros H. unfold contrib. destruct p as [k o l|k lo hi]; cbn [pred_col lows_of ups_of eqs_of sem_pred].
+  - destruct o; try discriminate H; rewrite String.eqb_refl; cbn [okL okU okE forallb fst snd];
+      rewrite ?andb_true_r; reflexivity.
+  - rewrite String.eqb_refl. cbn [okL okU okE forallb fst snd]. rewrite !andb_true_r. reflexivity.
+Qed.
+
+Definition cols_of (sc : schema) : list string := epoch_name :: map fst sc.
+
+Lemma sem_by_columns sc r ps :
+  NoDup (cols_of sc) ->
+  (forall p, In p ps -> In (pred_col p) (cols_of sc) /\ pred_is_neq p = false) ->
+  forallb (sem_pred sc r) ps = forallb (fun c => okc (cmp_col sc r c) c ps) (cols_of sc).
+Proof.
+  intros Hnd. induction ps as [|p ps IH]; intros Hp.
+  - cbn [forallb]. symmetry. apply forallb_forall. intros c _. reflexivity.
+  - cbn [forallb].
+    rewrite (forallb_ext' _ _ _ (fun c => okc_cons (cmp_col sc r c) c p ps)).
+    rewrite forallb_andb. f_equal.
+    + destruct (Hp p (or_introl eq_refl)) as [Hin Hneq].
+      rewrite (forallb_single (fun c => contrib (cmp_col sc r c) c p) (pred_col p) _ Hnd Hin).
+      * symmetry. apply contrib_same. exact Hneq.
+      * intros n Hn. apply contrib_other. congruence.
+    + apply IH. intros q Hq. apply Hp. right. exact Hq.
+Qed.
+
+(** ---------- the post-filter of one column, generically in the Go comparison operators ---------- *)
+Definition rm_gen (eqb lt le gt ge : lit -> bool) (s : sp) : bool :=
+  (h_eq s && negb (eqb (lit0 (s_eq s))))
+  || (h_min s && (if h_imin s then lt (lit0 (s_min s)) else le (lit0 (s_min s))))
+  || (h_max s && (if h_imax s then gt (lit0 (s_max s)) else ge (lit0 (s_max s)))).
+
+Definition tests_ok (K : lit -> option comparison) (eqb lt le gt ge : lit -> bool) (l : lit) : Prop :=
+  K l <> None /\ eqb l = sem_op CEq (K l) /\ lt l = sem_op CLt (K l) /\ le l = sem_op CLte (K l)
+  /\ gt l = sem_op CGt (K l) /\ ge l = sem_op CGte (K l).
+
+Lemma rm_gen_spec K eqb lt le gt ge lo up eq :
+  short lo -> short up -> short eq ->
+  (forall l, In l (map fst lo ++ map fst up ++ eq) -> tests_ok K eqb lt le gt ge l) ->
+  rm_gen eqb lt le gt ge (exp_sp lo up eq) = negb (okL K lo && okU K up && okE K eq).
+Proof.
+  unfold short, rm_gen, exp_sp, okL, okU, okE.
+  intros Hl Hu He HT.
+  destruct lo as [|[l1 i1] [|? ?]]; [| |simpl in Hl; lia];
+  destruct up as [|[l2 i2] [|? ?]]; [| |simpl in Hu; lia | | |simpl in Hu; lia];
+  destruct eq as [|l3 [|? ?]]; try (simpl in He; lia);
+  cbn [s_min s_max s_eq h_min h_imin h_max h_imax h_eq hd_lit hd_incl nonnil hd_error lit0 forallb fst snd andb orb negb];
+  repeat match goal with
+  | |- context [K ?l] =>
+      let H := fresh in
+      assert (H : tests_ok K eqb lt le gt ge l) by (apply HT; simpl; auto 8);
+      destruct H as (Hn & E1 & E2 & E3 & E4 & E5); rewrite ?E1, ?E2, ?E3, ?E4, ?E5; clear E1 E2 E3 E4 E5; destruct (K l) as [[]|]; [| | |congruence]; clear Hn
+  end;
+  try destruct i1; try destruct i2; reflexivity.
+Qed.
+
+(** ---------- float comparisons ---------- *)
+Section FloatCmp.
+Variable prec emax : Z.
+Notation fl := (binary_float prec emax).
+
+Lemma bltb_sem (x y : fl) : Bltb x y = sem_op CLt (Bcompare x y).
+Proof. unfold Bltb, SpecFloat.SFltb, Bcompare. destruct (SpecFloat.SFcompare (B2SF x) (B2SF y)) as [[]|]; reflexivity. Qed.
+Lemma bleb_sem (x y : fl) : Bleb x y = sem_op CLte (Bcompare x y).
+Proof. unfold Bleb, SpecFloat.SFleb, Bcompare. destruct (SpecFloat.SFcompare (B2SF x) (B2SF y)) as [[]|]; reflexivity. Qed.
+Lemma beqb_sem (x y : fl) : Beqb x y = sem_op CEq (Bcompare x y).
+Proof. unfold Beqb, SpecFloat.SFeqb, Bcompare. destruct (SpecFloat.SFcompare (B2SF x) (B2SF y)) as [[]|]; reflexivity. Qed.
+
+Lemma bcompare_some (x y : fl) : is_nan x = false -> is_nan y = false -> Bcompare x y <> None.
+Proof.
+  intros Hx Hy. unfold Bcompare.
+  destruct x as [sx|sx| |sx mx ex Bx]; try discriminate Hx;
+  destruct y as [sy|sy| |sy my ey By]; try discriminate Hy; cbn [B2SF SpecFloat.SFcompare]; discriminate.
+Qed.
+
+Lemma float_tests_ok (v : fl) (conv : lit -> fl) (l : lit) :
+  is_nan v = false -> is_nan (conv l) = false ->
+  tests_ok (fun l => Bcompare v (conv l))
+           (fun l => Beqb v (conv l)) (fun l => Bltb v (conv l)) (fun l => Bleb v (conv l))
+           (fun l => Bltb (conv l) v) (fun l => Bleb (conv l) v) l.
+Proof.
+  intros Hv Hl. unfold tests_ok. split; [apply bcompare_some; assumption|].
+  rewrite beqb_sem, !bltb_sem, !bleb_sem, (Bcompare_swap _ _ v (conv l)).
+  destruct (Bcompare v (conv l)) as [[]|]; repeat split; reflexivity.
+Qed.
+End FloatCmp.
+
+(** ---------- one value cell against its column's predicate ---------- *)
+Lemma int_tests_ok (conv : Z -> Z) (v y : Z) (K : lit -> option comparison) :
+  conv y = y -> K (LInt y) = Some (v ?= y) ->
+  tests_ok K (fun l => v =? conv (as_i64 l)) (fun l => v <? conv (as_i64 l)) (fun l => v <=? conv (as_i64 l))
+             (fun l => v >? conv (as_i64 l)) (fun l => v >=? conv (as_i64 l)) (LInt y).
+Proof.
+  intros Hc HK. unfold tests_ok. rewrite HK. cbn [as_i64]. rewrite Hc.
+  split; [discriminate|]. rewrite Z.eqb_compare. unfold Z.ltb, Z.leb, Z.gtb, Z.geb.
+  destruct (v ?= y); repeat split; reflexivity.
+Qed.
+
+Definition col_lits_ok (ty : Z) (ls : list lit) : Prop :=
+  forall l, In l ls -> lit_finite l = true /\
+    (((ty =? ET_INT32) || (ty =? ET_INT64)) = true -> lit_in_int_type ty l = true).
+
+Lemma ET_distinct : ET_FLOAT32 <> ET_FLOAT64 /\ ET_FLOAT32 <> ET_INT32 /\ ET_FLOAT32 <> ET_INT64
+  /\ ET_FLOAT64 <> ET_INT32 /\ ET_FLOAT64 <> ET_INT64 /\ ET_INT32 <> ET_INT64.
+Proof. repeat split; discriminate. Qed.
+
+Lemma rm_cell_spec ty v lo up eq :
+  cell_ok ty v = true -> filtered_type ty = true -> cell_is_nan v = false ->
+  short lo -> short up -> short eq ->
+  col_lits_ok ty (map fst lo ++ map fst up ++ eq) ->
+  rm_cell ty (exp_sp lo up eq) v = negb (okL (cmp_cell ty v) lo && okU (cmp_cell ty v) up && okE (cmp_cell ty v) eq).
+Proof.
+  intros Hc Hf Hn Hl Hu He HL.
+  destruct v as [z|x|x]; cbn [cell_ok cell_is_nan rm_cell] in *.
+  - (* integer cell *)
+    unfold filtered_type in Hf.
+    destruct (ty =? ET_INT32) eqn:E32.
+    + apply Z.eqb_eq in E32. subst ty.
+      change (rm_int (wrap I32) (exp_sp lo up eq) z) with
+        (rm_gen (fun l => z =? wrap I32 (as_i64 l)) (fun l => z <? wrap I32 (as_i64 l)) (fun l => z <=? wrap I32 (as_i64 l))
+                (fun l => z >? wrap I32 (as_i64 l)) (fun l => z >=? wrap I32 (as_i64 l)) (exp_sp lo up eq)).
+      apply rm_gen_spec; try assumption. intros l Hin. destruct (HL l Hin) as [_ Hr].
+      specialize (Hr eq_refl). destruct l as [y|y]; [|discriminate Hr].
+      apply int_tests_ok; [|reflexivity].
+      cbn [lit_in_int_type] in Hr. change (ET_INT32 =? ET_INT32) with true in Hr. cbv iota in Hr.
+      apply andb_true_iff in Hr. destruct Hr as [H1 H2]. apply Z.leb_le in H1, H2.
+      apply wrap_small. unfold in_ity, ity_min, ity_max. cbn [ity_signed ity_bits]. lia.
+    + destruct (ty =? ET_INT64) eqn:E64.
+      * apply Z.eqb_eq in E64. subst ty.
+        change (rm_int (fun x => x) (exp_sp lo up eq) z) with
+          (rm_gen (fun l => z =? (fun x => x) (as_i64 l)) (fun l => z <? (fun x => x) (as_i64 l)) (fun l => z <=? (fun x => x) (as_i64 l))
+                  (fun l => z >? (fun x => x) (as_i64 l)) (fun l => z >=? (fun x => x) (as_i64 l)) (exp_sp lo up eq)).
+        apply rm_gen_spec; try assumption. intros l Hin. destruct (HL l Hin) as [_ Hr].
+        specialize (Hr eq_refl). destruct l as [y|y]; [|discriminate Hr].
+        apply (int_tests_ok (fun x => x)); reflexivity.
+      * (* any other integer type is not filtered; float types do not hold integer cells *)
+        exfalso. unfold int_type_range in Hc. rewrite E32, E64 in Hc.
+        destruct (ty =? ET_FLOAT32) eqn:F32; [apply Z.eqb_eq in F32; subst ty; discriminate Hc|].
+        destruct (ty =? ET_FLOAT64) eqn:F64; [apply Z.eqb_eq in F64; subst ty; discriminate Hc|].
+        discriminate Hf.
+  - apply Z.eqb_eq in Hc. subst ty. change (ET_FLOAT32 =? ET_FLOAT32) with true. cbv iota.
+    change (rm_f32 (exp_sp lo up eq) x) with
+      (rm_gen (fun l => Beqb x (f32_of_lit l)) (fun l => Bltb x (f32_of_lit l)) (fun l => Bleb x (f32_of_lit l))
+              (fun l => Bltb (f32_of_lit l) x) (fun l => Bleb (f32_of_lit l) x) (exp_sp lo up eq)).
+    apply rm_gen_spec; try assumption. intros l Hin. destruct (HL l Hin) as [Hfin _].
+    apply (float_tests_ok 24 128 x f32_of_lit l Hn). apply f32_of_lit_not_nan. exact Hfin.
+  - apply Z.eqb_eq in Hc. subst ty. change (ET_FLOAT64 =? ET_FLOAT64) with true. cbv iota.
+    change (rm_f64 (exp_sp lo up eq) x) with
+      (rm_gen (fun l => Beqb x (as_f64 l)) (fun l => Bltb x (as_f64 l)) (fun l => Bleb x (as_f64 l))
+              (fun l => Bltb (as_f64 l) x) (fun l => Bleb (as_f64 l) x) (exp_sp lo up eq)).
+    apply rm_gen_spec; try assumption. intros l Hin. destruct (HL l Hin) as [Hfin _].
+    apply (float_tests_ok 53 1024 x as_f64 l Hn). apply as_f64_not_nan. exact Hfin.
+Qed.
+
+(** ---------- where the literals of a column come from ---------- *)
+Ltac origin_tac k c Hx :=
+  first [ contradiction
+        | destruct (String.eqb k c) eqn:E; cbn [In] in Hx;
+          first [ contradiction
+                | destruct Hx as [<-|[]]; apply String.eqb_eq in E; split; [exact E | cbn; auto] ] ].
+
+Lemma lows_origin c ps x : In x (lows c ps) -> exists p, In p ps /\ pred_col p = c /\ In (fst x) (pred_lits p).
+Proof.
+  unfold lows. intros H. apply in_flat_map in H. destruct H as (p & Hp & Hx). exists p. split; [exact Hp|].
+  destruct p as [k o l|k lo hi]; cbn [lows_of pred_col pred_lits] in *; [destruct o|]; origin_tac k c Hx.
+Qed.
+
+Lemma ups_origin c ps x : In x (ups c ps) -> exists p, In p ps /\ pred_col p = c /\ In (fst x) (pred_lits p).
+Proof.
+  unfold ups. intros H. apply in_flat_map in H. destruct H as (p & Hp & Hx). exists p. split; [exact Hp|].
+  destruct p as [k o l|k lo hi]; cbn [ups_of pred_col pred_lits] in *; [destruct o|]; origin_tac k c Hx.
+Qed.
+
+Lemma eqs_origin c ps x : In x (eqs c ps) -> exists p, In p ps /\ pred_col p = c /\ In x (pred_lits p).
+Proof.
+  unfold eqs. intros H. apply in_flat_map in H. destruct H as (p & Hp & Hx). exists p. split; [exact Hp|].
+  destruct p as [k o l|k lo hi]; cbn [eqs_of pred_col pred_lits] in *; [destruct o|]; origin_tac k c Hx.
+Qed.
+
+Lemma all_lits_origin c ps l : In l (all_lits c ps) -> exists p, In p ps /\ pred_col p = c /\ In l (pred_lits p).
+Proof.
+  unfold all_lits. rewrite !in_app_iff, !in_map_iff.
+  intros [(x & <- & Hx)|[(x & <- & Hx)|Hx]]; [eapply lows_origin | eapply ups_origin | eapply eqs_origin]; eassumption.
+Qed.
+
+(** ---------- schema lookups ---------- *)
+Lemma nodup_names_spec l : nodup_names l = true -> NoDup l.
+Proof.
+  induction l as [|x l IH]; simpl; intros H; [constructor|].
+  apply andb_true_iff in H. destruct H as [H1 H2]. constructor; [|apply IH; exact H2].
+  intros Hin. apply negb_true_iff in H1. assert (existsb (String.eqb x) l = true); [|congruence].
+  apply existsb_exists. exists x. split; [exact Hin | apply String.eqb_refl].
+Qed.
+
+Lemma cells_ok_length sc vals : cells_ok sc vals = true -> List.length sc = List.length vals.
+Proof.
+  revert vals. induction sc as [|[n ty] sc IH]; intros [|v vals]; simpl; intros H; try discriminate; [reflexivity|].
+  apply andb_true_iff in H. f_equal. apply IH. apply H.
+Qed.
+
+Lemma lookup_in sc vals n ty v :
+  NoDup (map fst sc) -> In ((n, ty), v) (combine sc vals) ->
+  lookup_cell n sc vals = Some (ty, v) /\ nth_cell n sc vals = Some v /\ col_type n sc = Some ty.
+Proof.
+  revert vals. induction sc as [|[k t] sc IH]; intros vals Hnd Hin; [destruct Hin|].
+  destruct vals as [|c vals]; [destruct Hin|]. simpl in Hnd. inversion Hnd as [|? ? Hk Hnd']; subst.
+  cbn [lookup_cell nth_cell col_type combine] in *. destruct Hin as [E|Hin].
+  - inversion E; subst. rewrite String.eqb_refl. repeat split; reflexivity.
+  - destruct (String.eqb k n) eqn:E.
+    + apply String.eqb_eq in E. subst k. exfalso. apply Hk.
+      apply in_combine_l in Hin. apply in_map_iff. exists (n, ty). split; [reflexivity | exact Hin].
+    + apply IH; assumption.
+Qed.
+
+Lemma cells_ok_in sc vals n ty v : cells_ok sc vals = true -> In ((n, ty), v) (combine sc vals) -> cell_ok ty v = true.
+Proof.
+  revert vals. induction sc as [|[k t] sc IH]; intros [|c vals] H Hin; try destruct Hin; simpl in H; try discriminate.
+  - apply andb_true_iff in H. destruct H as [H1 H2]. inversion H0; subst. exact H1.
+  - apply andb_true_iff in H. destruct H as [H1 H2]. eapply IH; eassumption.
+Qed.
+
+Lemma col_type_in n sc ty : col_type n sc = Some ty -> In n (map fst sc).
+Proof.
+  induction sc as [|[k t] sc IH]; simpl; [discriminate|]. destruct (String.eqb k n) eqn:E.
+  - apply String.eqb_eq in E. intros _. left. exact E.
+  - intros H. right. apply IH. exact H.
 Qed.
